@@ -29,10 +29,27 @@ Re-open.  A caller with "retry" whose operation failed re-opens the connection (
 transport.open() + channel.open(), the wire is revived, the old session's pending output is gone)
 and runs its operation again.
 
+Foreign threads (sync).  A thread started by a caller's thread (or its pool worker) that is not the worker of
+the thread-pool timeout -- a reader thread the code under test starts -- is a sub-actor ("o", c, j) as well:
+its transport calls are park points of its own, logged under c, it is scheduled after c's operation has
+ended, and it never has to hand the baton back (the end of its run does).  A *timed* blocking wait of the
+code under test on a caller's thread (Queue.get / Event.wait / Thread.join / Future.result with a timeout)
+is a park point "timedwait": it ends when what it waits for is there, or when the scheduler lets it elapse
+(virtual time: the clock the channel modules see -- `time.time()` -- is the scheduler's).
+
+Durations.  A fault {"caller": c, "kind": "duration"} says: caller c's read_duration runs out while the device
+is silent (nothing pending on the wire).  A transport read of c parked then may time out (only if the transport's
+timeout_transport is set at that moment: ScrapliTimeout, the clock advances by it), a timed wait of c may elapse.
+
 Events (the observation log, appended only by the actor that holds the baton):
   ("start", c) ("acq", c[, "lock#i"]) ("rel", c[, "lock#i"]) ("w", c, hex) ("r", c, hex) ("x", c, what)
-  ("close", c) ("cancel", c) ("kill", c) ("timeout", c) ("reopen", c) ("end", c, outcome)"""
+  ("close", c) ("cancel", c) ("kill", c) ("timeout", c) ("reopen", c) ("end", c, outcome)
+  ("rt", c) a transport read of c timed out (transport timeout)   ("elapse", c) a timed wait of c elapsed"""
 import asyncio
+import concurrent.futures
+import concurrent.futures.thread
+import queue
+import sys
 import threading
 import time
 
@@ -106,6 +123,9 @@ class Core:
         self.final_owner = None         # ... and by whom
         self.stuck_now = False
         self.pending_io = []            # sub-actors still inside a transport call when the run ended
+        self.clock = 0.0                # virtual seconds gone by (what the channel modules' time.time() shows)
+        self.transport_timeout = lambda: 0   # the transport's timeout_transport at this moment
+        self.nduration = {}             # fault index -> how often it was used
 
     def lock_probe(self):
         """is a lock object of the channel currently held"""
@@ -131,6 +151,19 @@ class Core:
             if f["kind"] == "cancel_lockwait" and kind == "lockwait":
                 return i
         return None
+
+    def duration_due(self, c):
+        """caller c's read_duration may run out now (fault "duration"; bounded: a loop that ignores time ends)"""
+        for i, f in enumerate(self.faults):
+            if f["caller"] == c and f["kind"] == "duration" and self.nduration.get(i, 0) < 4 and not self.main_done(c):
+                return i
+        return None
+
+    def use_duration(self, c, seconds, what):
+        i = self.duration_due(c)
+        self.nduration[i] = self.nduration.get(i, 0) + 1
+        self.clock += float(seconds) + 0.001
+        self.events.append((what, c))
 
     # -- fault lookup -----------------------------------------------------------------------------
     def io_fault(self, c, k):
@@ -173,6 +206,13 @@ class Core:
                 elif (self.wire.pending() > 0 or self.wire.closed or self.wire.dead
                       or self.io_fault(c, k) is not None):
                     opts.append((a, "read"))
+                elif self.duration_due(c) is not None and (self.transport_timeout() or 0) > 0:
+                    opts.append((a, "rtimeout"))       # (silent device, the transport read has a timeout)
+            elif kind == "timedwait":
+                if info[0]():
+                    opts.append((a, "wake"))           # (what the wait is for is there)
+                elif info[1] is not None and self.duration_due(c) is not None and self.wire.pending() == 0:
+                    opts.append((a, "elapse"))         # (the time runs out while the device is silent)
             elif kind == "lockwait_t":
                 opts.append((a, "lockwait"))
             elif kind == "lockwait":
@@ -261,6 +301,111 @@ class ThreadSched(Core):
             seen += 1
         raise Wedged("transport used from a thread that belongs to no caller")
 
+    def actor(self):
+        """the caller for its own thread and the pool worker of its timeout; ("o", c, j) for a foreign thread"""
+        a = getattr(threading.current_thread(), "_c19_actor", None)
+        return a if a is not None else self.cid()
+
+    def thread_actor(self):
+        """actor of the current thread, None for a thread that belongs to no caller (the scheduler, the interpreter's)"""
+        try:
+            return self.actor()
+        except Wedged:
+            return None
+
+    def adopt(self, th):
+        """a thread is started from a thread of caller c: the pool worker of its timeout (part of the caller) or a
+        foreign thread (a sub-actor: parks on its own, the end of its run gives the baton back)"""
+        th._c19_parent = threading.current_thread()
+        try:
+            c = self.cid()
+        except Wedged:
+            return
+        if getattr(th, "_target", None) is concurrent.futures.thread._worker:
+            self.in_pool[c] = True          # a caller starts the pool worker of its timeout
+            return
+        with self.cv:
+            a = ("o", c, sum(1 for k in self.state if not isinstance(k, int) and k[1] == c))
+            self.state[a] = ("running", None)
+        th._c19_actor = a
+        inner = th.run
+
+        def run():
+            try:
+                inner()
+            except Abort:
+                pass
+            finally:
+                th._c19_left = True
+                self.sub_left(a)
+
+        th.run = run
+
+    def sub_left(self, a):
+        """a foreign thread ended: if it had the baton, its caller goes on with it (it waited for the thread
+        in an untimed wait) or the scheduler gets it back (the caller is parked / through)"""
+        with self.cv:
+            self.state[a] = ("done", None)
+            if self.turn == a:
+                c = a[1]
+                self.turn = c if self.state.get(c, (None,))[0] == "running" else None
+            self.cv.notify_all()
+
+    def virtual_wait(self, a, pred, timeout):
+        """a blocking wait of the code under test: over when pred() holds (True) or, if it is timed, when the scheduler
+        lets the time elapse (False)"""
+        while not pred():
+            if self.park(a, "timedwait", (pred, timeout)) == "elapsed":
+                return pred()
+        return True
+
+    def install_waits(self):
+        """blocking waits (Queue.get / Event.wait / Thread.join / Future.result, timed or not) of the code under test on a
+        caller's thread become park points; every other thread's, and those of the interpreter's own machinery
+        (threading, concurrent.futures: thread start, pool workers) are left alone"""
+        s = self
+        saved = [(queue.Queue, "get", queue.Queue.get), (threading.Event, "wait", threading.Event.wait),
+                 (threading.Thread, "join", threading.Thread.join),
+                 (concurrent.futures.Future, "result", concurrent.futures.Future.result)]
+        o_get, o_wait, o_join, o_result = (x[2] for x in saved)
+
+        def timed(timeout):
+            if (timeout is not None and timeout <= 0) or s.finished or s.wedged:
+                return None
+            if sys._getframe(2).f_globals.get("__name__", "").split(".")[0] in ("threading", "concurrent", "queue"):
+                return None
+            return s.thread_actor()
+
+        def get(q, block=True, timeout=None):
+            a = timed(timeout) if block else None
+            if a is None:
+                return o_get(q, block, timeout)
+            if s.virtual_wait(a, lambda: q.qsize() > 0, timeout):
+                return o_get(q, False)
+            raise queue.Empty
+
+        def wait(ev, timeout=None):
+            a = timed(timeout)
+            if a is None:
+                return o_wait(ev, timeout)
+            return s.virtual_wait(a, ev.is_set, timeout)
+
+        def join(th, timeout=None):
+            a = timed(timeout)
+            if a is None:
+                return o_join(th, timeout)
+            s.virtual_wait(a, lambda: getattr(th, "_c19_left", False) or not th.is_alive(), timeout)
+
+        def result(fut, timeout=None):
+            a = timed(timeout)
+            if a is None or s.virtual_wait(a, fut.done, timeout):
+                return o_result(fut, None if a is not None else timeout)
+            raise concurrent.futures.TimeoutError()
+
+        for (cls, name, _), new in zip(saved, (get, wait, join, result)):
+            setattr(cls, name, new)
+        return saved
+
     def _wait(self, pred, caller=False):
         t0 = time.monotonic()
         while not pred():
@@ -270,10 +415,15 @@ class ThreadSched(Core):
             if time.monotonic() - t0 > WATCHDOG:
                 raise Wedged("watchdog: wait did not complete")
 
+    def quiescent(self):
+        """the baton is back and every foreign thread that was started has parked or ended"""
+        return self.turn is None and not any(st[0] == "running" for a, st in self.state.items() if not isinstance(a, int))
+
     def park(self, c, kind, info=None):
         with self.cv:
             self.state[c] = (kind, info)
-            self.turn = None
+            if isinstance(c, int) or self.turn == c:
+                self.turn = None        # (a foreign thread that was just started never had the baton: its caller has it)
             self.cv.notify_all()
             self._wait(lambda: self.turn == c, caller=True)
             self.state[c] = ("running", None)
@@ -295,7 +445,7 @@ class ThreadSched(Core):
                 self.grant_payload[c] = payload
             self.turn = c
             self.cv.notify_all()
-            self._wait(lambda: self.turn is None)
+            self._wait(self.quiescent)
 
     def fire_timeout(self, c):
         """the scheduler lets caller c's timeout elapse: its (patched) decorators.wait returns"""
@@ -305,7 +455,7 @@ class ThreadSched(Core):
                 raise Wedged("timeout requested for a caller that is not inside the thread-pool timeout")
             self.timeout_events.setdefault(c, threading.Event()).set()
             self.cv.notify_all()
-            self._wait(lambda: self.turn is None)
+            self._wait(self.quiescent)
 
     def run(self, starters):
         """starters: list of callables, one per caller, each running on its own thread"""
@@ -313,14 +463,11 @@ class ThreadSched(Core):
         orig_start = threading.Thread.start
 
         def start(th):
-            th._c19_parent = threading.current_thread()
-            try:
-                self.in_pool[self.cid()] = True     # a caller starts a thread: the pool worker of its timeout
-            except Wedged:
-                pass
+            self.adopt(th)
             return orig_start(th)
 
         threading.Thread.start = start
+        saved_waits = self.install_waits()
         try:
             for c, fn in enumerate(starters):
                 th = threading.Thread(target=self._caller, args=(c, fn), name="c19-caller-%d" % c, daemon=True)
@@ -342,6 +489,8 @@ class ThreadSched(Core):
                 raise
         finally:
             threading.Thread.start = orig_start
+            for cls, name, fn in saved_waits:
+                setattr(cls, name, fn)
             with self.cv:
                 self.finished = True
                 self.cv.notify_all()
@@ -362,13 +511,20 @@ class ThreadSched(Core):
 
     def _loop(self):
         while True:
-            if self.all_done():
+            opts = self.enabled()
+            if self.all_done() and (not opts or self.aborting):
+                # every caller is through and no thread left behind by one of them can make a step
                 if self.final_lock is None:
                     self.final_lock = bool(self.lock_probe())
+                self.note_pending_io()
                 return
-            opts = self.enabled()
             if self.aborting:
-                parked = [c for c in range(self.n) if self.state[c][0] in ("start", "reopen", "read", "write", "lockwait", "lockwait_t")]
+                kinds = ("start", "reopen", "read", "write", "lockwait", "lockwait_t", "timedwait")
+                parked = [c for c in range(self.n) if self.state[c][0] in kinds]
+                if not parked:
+                    # (a caller may be waiting, untimed, for a thread of its own that is parked)
+                    parked = [a for a in self.actors() if not isinstance(a, int) and self.state[a][0] in kinds
+                              and not self.main_done(self.owner(a))]
                 if not parked:
                     raise Wedged("aborting but nobody is parked and not all done")
                 self.grant(parked[0], "abort")
@@ -386,18 +542,24 @@ class ThreadSched(Core):
             ix = self.chooser(self.steps, opts)
             self.choices.append((ix, len(opts)))
             self.steps += 1
-            c, what = opts[ix]
+            a, what = opts[ix]
+            c = self.owner(a)
             if what == "timeout":
                 self.stuck_now = True
-                i = self.timeout_due(c, self.state[c][0], self.state[c][1])
+                i = self.timeout_due(c, self.state[a][0], self.state[a][1])
                 self.stuck_now = False
                 self.fired.add(i)
                 self.events.append(("timeout", c))
                 self.fire_timeout(c)
             elif what == "kill":
                 raise Wedged("cancellation of a caller is an asyncio fault (threads cannot be cancelled)")
+            elif what == "elapse":
+                self.use_duration(c, self.state[a][1][1], "elapse")
+                self.grant(a, "elapsed")
+            elif what == "rtimeout":
+                self.grant(a, "rtimeout")
             else:
-                self.grant(c)
+                self.grant(a)
 
 
 def instrumented_channel_class(base, sched, wrapper):
@@ -470,6 +632,7 @@ def make_sync_transport(sched, base_transport_args):
         def __init__(self):
             Transport.__init__(self, base_transport_args)
             self.opened = True
+            sched.transport_timeout = lambda: self._base_transport_args.timeout_transport
 
         def open(self):
             self.opened = True
@@ -490,7 +653,10 @@ def make_sync_transport(sched, base_transport_args):
             c = sched.cid()
             k = w.nio.get(c, 0)
             w.nio[c] = k + 1
-            sched.park(c, kind, k)
+            if sched.park(sched.actor(), kind, k) == "rtimeout":
+                from scrapli.exceptions import ScrapliTimeout
+                sched.use_duration(c, self._base_transport_args.timeout_transport, "rt")
+                raise ScrapliTimeout("scripted transport: timed out reading")
             if w.closed or w.dead:
                 sched.events.append(("x", c, "closed"))
                 raise _conn_error()
@@ -517,6 +683,22 @@ def make_sync_transport(sched, base_transport_args):
     return SchedTransport()
 
 
+_EVENT_WAIT = threading.Event.wait       # (the harness's own waits are never park points)
+
+
+class SchedClock:
+    """what `time` is inside the channel modules during a run: time() is the scheduler's virtual clock"""
+
+    def __init__(self, sched):
+        self.sched = sched
+
+    def time(self):
+        return 1000000.0 + self.sched.clock
+
+    def __getattr__(self, name):
+        return getattr(time, name)
+
+
 def patched_wait_factory(sched):
     """replacement of scrapli.decorators.wait: the timeout elapses when the scheduler says so"""
 
@@ -527,7 +709,7 @@ def patched_wait_factory(sched):
             ev = sched.timeout_events.setdefault(c, threading.Event())
         fut.add_done_callback(lambda f: ev.set())
         t0 = time.monotonic()
-        while not ev.wait(0.25):
+        while not _EVENT_WAIT(ev, 0.25):
             if sched.wedged:
                 raise Abort()
             if time.monotonic() - t0 > WATCHDOG:
@@ -714,6 +896,8 @@ class TaskSched(Core):
             elif what == "kill":
                 self.fired.add(self.kill_due(c, self.state[a][0], self.state[a][1]))
                 await self._kill(c)
+            elif what == "rtimeout":
+                await self._grant(a, "rtimeout")
             else:
                 await self._grant(a)
         self.finished = True
@@ -778,6 +962,7 @@ def make_async_transport(sched, base_transport_args):
     class ASchedTransport(AsyncTransport):
         def __init__(self):
             AsyncTransport.__init__(self, base_transport_args)
+            sched.transport_timeout = lambda: self._base_transport_args.timeout_transport
 
         async def open(self):
             pass
@@ -813,7 +998,10 @@ def make_async_transport(sched, base_transport_args):
             c = sched.cid()
             k = sched.wire.nio.get(c, 0)
             sched.wire.nio[c] = k + 1
-            await sched.park(c, "read", k)
+            if await sched.park(c, "read", k) == "rtimeout":
+                from scrapli.exceptions import ScrapliTimeout
+                sched.use_duration(c, self._base_transport_args.timeout_transport, "rt")
+                raise ScrapliTimeout("scripted transport: timed out reading")
             return self._finish(c, k, "read", None)
 
         def write(self, channel_input):
